@@ -182,6 +182,19 @@ def m_unwrap_or(ex, st, callee, args, dest_ty):
         yield st2, args[1]
 
 
+def m_unwrap_or_else(ex, st, callee, args, dest_ty):
+    """Option::unwrap_or_else(f) / Result::unwrap_or_else(|e| ..)"""
+    v = _opt_like(args[0], callee)
+    good, goodidx = ("Some", 1) if ("Some" in v.alts or "None" in v.alts) else ("Ok", 0)
+    if good in v.alts:
+        for st2 in ex.branch(st, v.disc == goodidx):
+            yield st2, v.alts[good][0]
+    for st2 in ex.branch(st, v.disc != goodidx):
+        argv = [] if good == "Some" else [v.alts["Err"][0]]
+        for o in call_fn_value(ex, st2, args[1], argv):
+            yield o if o.kind != "return" else (o.st, o.value)
+
+
 def m_opt_zip(ex, st, callee, args, dest_ty):
     a, b = args
     both = z3.simplify(z3.And(a.disc == 1, b.disc == 1))
@@ -960,6 +973,7 @@ BASE_MODELS = [
     (R(r" as FromResidual<.*>>::from_residual$"), m_from_residual),
     (R(r"^(Option|Result)::<.*>::(unwrap|expect|unwrap_err)$"), m_unwrap),
     (R(r"^(Option|Result)::<.*>::unwrap_or$"), m_unwrap_or),
+    (R(r"^(Option|Result)::<.*>::unwrap_or_else::<.*>$"), m_unwrap_or_else),
     (R(r"^Option::<.*>::zip::<.*>$"), m_opt_zip),
     (R(r"^Result::<.*>::ok$"), m_result_ok),
     (R(r"^Option::<.*>::ok_or::<.*>$"), m_ok_or),
@@ -994,7 +1008,7 @@ BASE_MODELS = [
     (R(r"^std::fmt::format$|^format$|^alloc::fmt::format$"), m_fmt_format),
     (R(r"^Arguments::<'_>::from_str_nonconst$"), m_fmt_from_str),
     (R(r" as ToString>::to_string$"), m_to_string_display),
-    (R(r"^Vec::<.*>::new$"), m_vec_new),
+    (R(r"^Vec::<.*>::new$|^<Vec<.*> as Default>::default$"), m_vec_new),
     (R(r"^Vec::<.*>::len$|^core::slice::<impl \[.*\]>::len$"), m_vec_len),
     (R(r"^Vec::<.*>::is_empty$|^core::slice::<impl \[.*\]>::is_empty$"), m_vec_is_empty),
     (R(r"^Vec::<.*>::push$"), m_vec_push),
